@@ -4,6 +4,7 @@ import (
 	"encoding/json"
 	"flag"
 	"fmt"
+	"math"
 	"math/rand"
 	"os"
 	"path/filepath"
@@ -95,18 +96,35 @@ func goValueF(ctx *enc.Ctx, v interface{}) enc.M {
 	return m
 }
 
+func toF64(v interface{}) (float64, bool) {
+	switch x := v.(type) {
+	case float64:
+		return x, true
+	case float32:
+		return float64(x), true
+	}
+	return 0, false
+}
+
 // typed Go carriers for a number given as a decimal literal
 func carriers(lit string, r *rand.Rand) []interface{} {
 	var out []interface{}
 	for _, k := range []string{"float64", "float32", "int", "int8", "int16", "int32", "int64", "uint", "uint8", "uint16", "uint32", "uint64"} {
 		if v, ok := asKind(k, lit); ok {
+			// as in C13, a float kind carries an integer only inside +-2^53 (the JSON-interoperable integers): whether a float
+			// holding 2^63 "is an integer" is not something the property settles, so such carriers are outside the domain
+			if f, isF := toF64(v); isF && math.Abs(f) >= 1<<53 {
+				continue
+			}
 			out = append(out, v)
 		}
 	}
 	return out
 }
 
-var simpleNums = []string{"0", "1", "2", "3", "5", "7", "10", "100", "-1", "-5", "1.5", "2.5", "0.5", "101", "4", "128", "300", "70000", "2147483648", "-2147483649", "4294967296", "9007199254740993", "44", "-112", "144", "4464", "4294967295", "255"}
+var simpleNums = []string{"0", "1", "2", "3", "5", "7", "10", "100", "-1", "-5", "1.5", "2.5", "0.5", "101", "4", "128", "300", "70000", "2147483648", "-2147483649", "4294967296", "9007199254740993", "44", "-112", "144", "4464", "4294967295", "255",
+	// the extremes of the 64-bit kinds: still values of the declared type integer / int64 / uint64
+	"9223372036854775807", "-9223372036854775808", "9223372036854775296", "18446744073709551615"}
 
 // simpleTypedValue builds a typed Go value for a definition: matching and non-matching kinds, all widths.
 func simpleTypedValue(r *rand.Rand, d map[string]interface{}, wrong float64) interface{} {
